@@ -126,66 +126,106 @@ func truthTables(p *load.Program, run *report.Run) (map[[3]int]int, error) {
 // GarbleForms derives O3 for a whole-circuit garbler function.
 func garbleForms(p *load.Program, run *report.Run, fn *ssa.Function, rule string) map[[3]int]*GateForms {
 	out := map[[3]int]*GateForms{}
+	sameWireAsked = false
 	for op := 0; op < 5; op++ {
 		for _, pa := range []bool{false, true} {
 			for _, pb := range []bool{false, true} {
-				key := fmt.Sprintf("%s/%s/pa=%d,pb=%d", fn.RelString(nil), opNames[op], b01(pa), b01(pb))
-				in := newInterp(pa, pb)
-				wires := garblerWires()
-				idp := &fpai.Obj{V: fpai.IntV{Sym: "id0"}}
-				data := &fpai.Obj{V: fpai.DataV{}}
-				// the row table is scratch too: rows of an earlier gate / garbling
-				table := &fpai.Obj{V: fpai.ArrV{E: []fpai.Val{fpai.Lab("stale:row0"), fpai.Lab("stale:row1"), fpai.Lab("stale:row2"), fpai.Lab("stale:row3")}}}
-				res, err := in.Call(fn, []fpai.Val{fpai.PtrV{O: newGate(op)}, wires, fpai.OpaqueV{Name: "enc"}, fpai.Lab("r"),
-					fpai.PtrV{O: idp}, fpai.PtrV{O: data}, fpai.PtrV{O: table}})
-				run.Count("garbler-partitions", 1)
-				if err != nil {
-					run.Undecided(rule, key, p.Rel(fn.Pos()), err.Error())
-					continue
-				}
-				tup, ok := res.(fpai.TupleV)
-				if !ok || len(tup) != 3 {
-					run.Undecided(rule, key, p.Rel(fn.Pos()), "unexpected result shape")
-					continue
-				}
-				if _, isErr := tup[2].(fpai.ErrV); isErr {
-					run.Violate(rule, key, p.Rel(fn.Pos()), "garbling returns an error for a valid gate", nil)
-					continue
-				}
-				start, ok1 := tup[0].(fpai.IntV)
-				count, ok2 := tup[1].(fpai.IntV)
-				if !ok1 || !ok2 || !start.Const() || !count.Const() {
-					run.Undecided(rule, key, p.Rel(fn.Pos()), "start/count not constant")
-					continue
-				}
-				cw := wires.M["out"].V.(fpai.StructV)
-				gf := &GateForms{Op: op, PA: pa, PB: pb, L0: cw.F[0].(fpai.LabelV), L1: cw.F[1].(fpai.LabelV),
-					Start: int(start.K), Cnt: int(count.K), IDAfter: idp.V.(fpai.IntV)}
-				tab := table.V.(fpai.ArrV)
-				bad := false
-				for k := 0; k < gf.Cnt; k++ {
-					if gf.Start+k >= len(tab.E) {
-						run.Violate(rule, key, p.Rel(fn.Pos()), fmt.Sprintf("row %d beyond the table", gf.Start+k), nil)
-						bad = true
+				for _, same := range []bool{false, true} {
+					// a gate whose two inputs are one wire (x AND x): only if the code asks, and then the two
+					// inputs are the same object with one permute bit
+					if same && (!sameWireAsked || op == 4 || pa != pb) {
+						continue
+					}
+					key := fmt.Sprintf("%s/%s/pa=%d,pb=%d", fn.RelString(nil), opNames[op], b01(pa), b01(pb))
+					if same {
+						key += "/same-wire"
+					}
+					var res fpai.Val
+					var err error
+					var wires *fpai.SymSlice
+					var idp, table *fpai.Obj
+					for attempt := 0; attempt < 2; attempt++ {
+						in := newInterp(pa, pb)
+						if sameWireAsked || attempt == 1 {
+							in.Assume[sameWireSym] = same
+						}
+						wires = garblerWires()
+						if same {
+							wires.M["in1"] = wires.M["in0"]
+						}
+						idp = &fpai.Obj{V: fpai.IntV{Sym: "id0"}}
+						data := &fpai.Obj{V: fpai.DataV{}}
+						// the row table is scratch too: rows of an earlier gate / garbling
+						table = &fpai.Obj{V: fpai.ArrV{E: []fpai.Val{fpai.Lab("stale:row0"), fpai.Lab("stale:row1"), fpai.Lab("stale:row2"), fpai.Lab("stale:row3")}}}
+						res, err = in.Call(fn, []fpai.Val{fpai.PtrV{O: newGate(op)}, wires, fpai.OpaqueV{Name: "enc"}, fpai.Lab("r"),
+							fpai.PtrV{O: idp}, fpai.PtrV{O: data}, fpai.PtrV{O: table}})
+						if nf, isFork := err.(*fpai.NeedFork); isFork && nf.Sym == sameWireSym && !sameWireAsked {
+							sameWireAsked = true
+							continue
+						}
 						break
 					}
-					gf.Rows = append(gf.Rows, tab.E[gf.Start+k].(fpai.LabelV))
+					run.Count("garbler-partitions", 1)
+					if err != nil {
+						run.Undecided(rule, key, p.Rel(fn.Pos()), err.Error())
+						continue
+					}
+					tup, ok := res.(fpai.TupleV)
+					if !ok || len(tup) != 3 {
+						run.Undecided(rule, key, p.Rel(fn.Pos()), "unexpected result shape")
+						continue
+					}
+					if _, isErr := tup[2].(fpai.ErrV); isErr {
+						run.Violate(rule, key, p.Rel(fn.Pos()), "garbling returns an error for a valid gate", nil)
+						continue
+					}
+					start, ok1 := tup[0].(fpai.IntV)
+					count, ok2 := tup[1].(fpai.IntV)
+					if !ok1 || !ok2 || !start.Const() || !count.Const() {
+						run.Undecided(rule, key, p.Rel(fn.Pos()), "start/count not constant")
+						continue
+					}
+					cw := wires.M["out"].V.(fpai.StructV)
+					gf := &GateForms{Op: op, PA: pa, PB: pb, L0: cw.F[0].(fpai.LabelV), L1: cw.F[1].(fpai.LabelV),
+						Start: int(start.K), Cnt: int(count.K), IDAfter: idp.V.(fpai.IntV)}
+					tab := table.V.(fpai.ArrV)
+					bad := false
+					for k := 0; k < gf.Cnt; k++ {
+						if gf.Start+k >= len(tab.E) {
+							run.Violate(rule, key, p.Rel(fn.Pos()), fmt.Sprintf("row %d beyond the table", gf.Start+k), nil)
+							bad = true
+							break
+						}
+						gf.Rows = append(gf.Rows, tab.E[gf.Start+k].(fpai.LabelV))
+					}
+					if bad {
+						continue
+					}
+					if d := fpai.Xor(fpai.Xor(gf.L0, gf.L1), fpai.Lab("r")); len(d) != 0 {
+						run.Violate(rule, key, p.Rel(fn.Pos()), "output wire does not satisfy L1 = L0 ^ r",
+							map[string]string{"L0": gf.L0.Canon(), "L1": gf.L1.Canon()})
+						continue
+					}
+					run.OK(rule, key, p.Rel(fn.Pos()), fmt.Sprintf("L0=%s rows=%d start=%d id'=%s", gf.L0.Canon(), gf.Cnt, gf.Start, gf.IDAfter))
+					if same {
+						out[[3]int{op + sameWireOp, b01(pa), b01(pb)}] = gf
+					} else {
+						out[[3]int{op, b01(pa), b01(pb)}] = gf
+					}
 				}
-				if bad {
-					continue
-				}
-				if d := fpai.Xor(fpai.Xor(gf.L0, gf.L1), fpai.Lab("r")); len(d) != 0 {
-					run.Violate(rule, key, p.Rel(fn.Pos()), "output wire does not satisfy L1 = L0 ^ r",
-						map[string]string{"L0": gf.L0.Canon(), "L1": gf.L1.Canon()})
-					continue
-				}
-				run.OK(rule, key, p.Rel(fn.Pos()), fmt.Sprintf("L0=%s rows=%d start=%d id'=%s", gf.L0.Canon(), gf.Cnt, gf.Start, gf.IDAfter))
-				out[[3]int{op, b01(pa), b01(pb)}] = gf
 			}
 		}
 	}
 	return out
 }
+
+// sameWireSym is the unknown the interpreter asks about when the code compares a gate's two input wires;
+// sameWireAsked is set once the code has been seen to ask (the same-wire family is then interpreted too,
+// filed under op+sameWireOp).
+const sameWireSym = "(in0==in1)"
+const sameWireOp = 10
+
+var sameWireAsked bool
 
 // C01 decides the per-gate correctness obligations.
 func C01(p *load.Program, run *report.Run) {
@@ -221,93 +261,113 @@ func C01(p *load.Program, run *report.Run) {
 	forms := garbleForms(p, run, garbleInto, "O3-garble-invariant")
 
 	// O4 + O5
-	for op := 0; op < 5; op++ {
-		for pa := 0; pa < 2; pa++ {
-			for pb := 0; pb < 2; pb++ {
-				gf := forms[[3]int{op, pa, pb}]
-				if gf == nil {
-					continue
-				}
-				for va := 0; va < 2; va++ {
-					for vb := 0; vb < 2; vb++ {
-						if op == 4 && vb == 1 {
-							continue
-						}
-						key := fmt.Sprintf("circuit.Circuit.Eval/%s/pa=%d,pb=%d/va=%d,vb=%d", opNames[op], pa, pb, va, vb)
-						f, ok := tt[[3]int{op, va, vb}]
-						if !ok {
-							continue
-						}
-						a, b := fpai.Lab("a0"), fpai.Lab("b0")
-						if va == 1 {
-							a = fpai.Lab("a0", "r")
-						}
-						if vb == 1 {
-							b = fpai.Lab("b0", "r")
-						}
-						ev := newInterp(pa == 1, pb == 1)
-						// the gate under evaluation is at an arbitrary position of the list: everything the
-						// loop carries is unknown — the tweak counter is the symbol id0, a carried label is a
-						// fresh atom (a value left over from the previous gate), the loop index stays concrete
-						idKey := ""
-						ev.HavocPhi = func(fn *ssa.Function, phi *ssa.Phi, key string) (fpai.Val, bool) {
-							if fn != eval {
+	for _, same := range []bool{false, true} {
+		for op := 0; op < 5; op++ {
+			for pa := 0; pa < 2; pa++ {
+				for pb := 0; pb < 2; pb++ {
+					gf := forms[[3]int{op, pa, pb}]
+					if same {
+						gf = forms[[3]int{op + sameWireOp, pa, pb}]
+					}
+					if gf == nil {
+						continue
+					}
+					for va := 0; va < 2; va++ {
+						for vb := 0; vb < 2; vb++ {
+							if op == 4 && vb == 1 {
+								continue
+							}
+							if same && va != vb {
+								continue
+							}
+							key := fmt.Sprintf("circuit.Circuit.Eval/%s/pa=%d,pb=%d/va=%d,vb=%d", opNames[op], pa, pb, va, vb)
+							if same {
+								key += "/same-wire"
+							}
+							f, ok := tt[[3]int{op, va, vb}]
+							if !ok {
+								continue
+							}
+							a, b := fpai.Lab("a0"), fpai.Lab("b0")
+							if va == 1 {
+								a = fpai.Lab("a0", "r")
+							}
+							if vb == 1 {
+								b = fpai.Lab("b0", "r")
+							}
+							ev := newInterp(pa == 1, pb == 1)
+							if sameWireAsked {
+								ev.Assume[sameWireSym] = same
+							}
+							if same {
+								b = a
+							}
+							// the gate under evaluation is at an arbitrary position of the list: everything the
+							// loop carries is unknown — the tweak counter is the symbol id0, a carried label is a
+							// fresh atom (a value left over from the previous gate), the loop index stays concrete
+							idKey := ""
+							ev.HavocPhi = func(fn *ssa.Function, phi *ssa.Phi, key string) (fpai.Val, bool) {
+								if fn != eval {
+									return nil, false
+								}
+								switch t := phi.Type().Underlying().(type) {
+								case *types.Basic:
+									if t.Kind() == types.Uint32 {
+										idKey = key
+										return fpai.IntV{Sym: "id0"}, true
+									}
+								case *types.Struct:
+									if typeName(phi.Type()) == "Label" {
+										return fpai.Lab("carried:" + key), true
+									}
+								}
 								return nil, false
 							}
-							switch t := phi.Type().Underlying().(type) {
-							case *types.Basic:
-								if t.Kind() == types.Uint32 {
-									idKey = key
-									return fpai.IntV{Sym: "id0"}, true
-								}
-							case *types.Struct:
-								if typeName(phi.Type()) == "Label" {
-									return fpai.Lab("carried:" + key), true
-								}
+							rows := fpai.ArrV{}
+							for _, r := range gf.Rows {
+								rows.E = append(rows.E, r)
 							}
-							return nil, false
-						}
-						rows := fpai.ArrV{}
-						for _, r := range gf.Rows {
-							rows.E = append(rows.E, r)
-						}
-						rowsObj := &fpai.Obj{V: rows}
-						ewires := &fpai.SymSlice{Name: "wires", M: map[string]*fpai.Obj{"in0": {V: a}, "in1": {V: b}, "out": {V: fpai.LabelV{}}}}
-						circ := &fpai.Obj{V: fpai.ZeroVal(circT)}
-						cs := circ.V.(fpai.StructV)
-						gi := fieldIndex(circT, "Gates")
-						if gi < 0 {
-							run.Undecided("anchor", "circuit.Circuit.Gates", "", "field not found")
-							return
-						}
-						cs.F[gi] = &fpai.SymSlice{Name: "gates", M: map[string]*fpai.Obj{"0": newGate(op)}, Len: fpai.IntV{K: 1}}
-						garbled := &fpai.SymSlice{Name: "garbled", M: map[string]*fpai.Obj{"0": {V: fpai.SliceV{O: rowsObj, Lo: 0, Hi: len(rows.E)}}}, Len: fpai.IntV{K: 1}}
-						r, err := ev.Call(eval, []fpai.Val{fpai.PtrV{O: circ}, fpai.OpaqueV{Name: "key"}, ewires, garbled})
-						run.Count("evaluator-partitions", 1)
-						if err != nil {
-							run.Undecided("O4-eval-output", key, p.Rel(eval.Pos()), err.Error())
-							continue
-						}
-						if _, isErr := r.(fpai.ErrV); isErr {
-							run.Violate("O4-eval-output", key, p.Rel(eval.Pos()), "Eval rejects the honest garbling", nil)
-							continue
-						}
-						want := gf.L0
-						if f == 1 {
-							want = gf.L1
-						}
-						got, _ := ewires.M["out"].V.(fpai.LabelV)
-						if got.Canon() != want.Canon() {
-							run.Violate("O4-eval-output", key, p.Rel(eval.Pos()), "evaluated label differs from the label of f_op(va,vb)",
-								map[string]string{"got": got.Canon(), "want": want.Canon()})
-						} else {
-							run.OK("O4-eval-output", key, p.Rel(eval.Pos()), "= "+want.Canon())
-						}
-						if eid, ok := ev.LastPhi[idKey].(fpai.IntV); !ok || eid != gf.IDAfter {
-							run.Violate("O5-tweak-lockstep", key, p.Rel(eval.Pos()),
-								fmt.Sprintf("evaluator counter %v, garbler counter %v", ev.LastPhi[idKey], gf.IDAfter), nil)
-						} else {
-							run.OK("O5-tweak-lockstep", key, p.Rel(eval.Pos()), eid.String())
+							rowsObj := &fpai.Obj{V: rows}
+							ewires := &fpai.SymSlice{Name: "wires", M: map[string]*fpai.Obj{"in0": {V: a}, "in1": {V: b}, "out": {V: fpai.LabelV{}}}}
+							if same {
+								ewires.M["in1"] = ewires.M["in0"]
+							}
+							circ := &fpai.Obj{V: fpai.ZeroVal(circT)}
+							cs := circ.V.(fpai.StructV)
+							gi := fieldIndex(circT, "Gates")
+							if gi < 0 {
+								run.Undecided("anchor", "circuit.Circuit.Gates", "", "field not found")
+								return
+							}
+							cs.F[gi] = &fpai.SymSlice{Name: "gates", M: map[string]*fpai.Obj{"0": newGate(op)}, Len: fpai.IntV{K: 1}}
+							garbled := &fpai.SymSlice{Name: "garbled", M: map[string]*fpai.Obj{"0": {V: fpai.SliceV{O: rowsObj, Lo: 0, Hi: len(rows.E)}}}, Len: fpai.IntV{K: 1}}
+							r, err := ev.Call(eval, []fpai.Val{fpai.PtrV{O: circ}, fpai.OpaqueV{Name: "key"}, ewires, garbled})
+							run.Count("evaluator-partitions", 1)
+							if err != nil {
+								run.Undecided("O4-eval-output", key, p.Rel(eval.Pos()), err.Error())
+								continue
+							}
+							if _, isErr := r.(fpai.ErrV); isErr {
+								run.Violate("O4-eval-output", key, p.Rel(eval.Pos()), "Eval rejects the honest garbling", nil)
+								continue
+							}
+							want := gf.L0
+							if f == 1 {
+								want = gf.L1
+							}
+							got, _ := ewires.M["out"].V.(fpai.LabelV)
+							if got.Canon() != want.Canon() {
+								run.Violate("O4-eval-output", key, p.Rel(eval.Pos()), "evaluated label differs from the label of f_op(va,vb)",
+									map[string]string{"got": got.Canon(), "want": want.Canon()})
+							} else {
+								run.OK("O4-eval-output", key, p.Rel(eval.Pos()), "= "+want.Canon())
+							}
+							if eid, ok := ev.LastPhi[idKey].(fpai.IntV); !ok || eid != gf.IDAfter {
+								run.Violate("O5-tweak-lockstep", key, p.Rel(eval.Pos()),
+									fmt.Sprintf("evaluator counter %v, garbler counter %v", ev.LastPhi[idKey], gf.IDAfter), nil)
+							} else {
+								run.OK("O5-tweak-lockstep", key, p.Rel(eval.Pos()), eid.String())
+							}
 						}
 					}
 				}
